@@ -39,7 +39,7 @@ def _phase_and_fold():
 
 class RecordingLDA(ClassifierMixin, BaseEstimator):
     def __init__(self, tag_idx=None, order_frac=None, ridge=1e-2, mode="good", fold_tags=None, noise_seed=0,
-                 record=True, round_out=None):
+                 record=True, round_out=None, affine_out=None):
         self.tag_idx = tag_idx
         self.order_frac = order_frac
         self.ridge = ridge
@@ -48,6 +48,7 @@ class RecordingLDA(ClassifierMixin, BaseEstimator):
         self.noise_seed = noise_seed
         self.record = record
         self.round_out = round_out  # decimals: a coarse output scale produces exact ties between PSMs
+        self.affine_out = affine_out  # (a, b): the decision function is reported as a + b * margin (another offset / unit)
 
     # ------------------------------------------------------------- helpers
     def _split(self, X):
@@ -139,6 +140,8 @@ class RecordingLDA(ClassifierMixin, BaseEstimator):
             out = np.array([memo.get(int(t), float(v)) for t, v in zip(tags, noisy)])
         if self.round_out is not None:
             out = np.round(out, int(self.round_out))
+        if self.affine_out is not None:
+            out = float(self.affine_out[0]) + float(self.affine_out[1]) * out
         if transform is not None:
             out = transform(out)
         if self.record and tags is not None:
